@@ -718,7 +718,7 @@ func (s *Sim) yield(t *Task) {
 			t.dead, t.killed = true, true
 			runtime.Goexit()
 		}
-		s.Pauses = append(s.Pauses, PauseRec{Task: t.ID, From: from, To: s.Now()})
+		s.Pauses = append(s.Pauses, PauseRec{Task: t.ID, From: from, To: s.Now(), Stack: callerNames()})
 		s.resume(t)
 		t.pausing = false
 	}
@@ -729,6 +729,37 @@ func (s *Sim) yield(t *Task) {
 type PauseRec struct {
 	Task     int
 	From, To time.Duration
+	// Stack holds the function names of the paused task's call stack, so that
+	// an oracle can tell where the task stood (never drawn from, never hashed).
+	Stack []string
+}
+
+// Inside reports whether the task was paused within a function whose
+// qualified name contains fn.
+func (p PauseRec) Inside(fn string) bool {
+	for _, f := range p.Stack {
+		if strings.Contains(f, fn) {
+			return true
+		}
+	}
+	return false
+}
+
+func callerNames() []string {
+	pcs := make([]uintptr, 64)
+	n := runtime.Callers(2, pcs)
+	frames := runtime.CallersFrames(pcs[:n])
+	var out []string
+	for {
+		f, more := frames.Next()
+		if f.Function != "" {
+			out = append(out, f.Function)
+		}
+		if !more {
+			break
+		}
+	}
+	return out
 }
 
 type pausePt struct {
